@@ -226,15 +226,25 @@ glamfit_complex(const struct ndsparse* data, const double* weights, const double
 
 	if (monodim != PHOTOSPLINE_GLAM_NO_MONODIM) {
 		/*
-		 * The stopping and pivoting tolerances of the non-negative
-		 * solver are absolute numbers, tuned for right-hand sides
-		 * of order one. The solution is homogeneous in the right-hand
-		 * side, so solve the problem normalised to max|A'b| = 1 and
-		 * scale the solution back: the fit of c*data is then c times
-		 * the fit of data (as for the unconstrained fit), and tables
-		 * with small values are not truncated to zero.
+		 * The stopping, pivoting and sparsification tolerances of the
+		 * non-negative solver are absolute numbers, tuned for a matrix
+		 * and a right-hand side of order one. The solution of
+		 * (A'WA + P) x = A'Wb is homogeneous of degree one in the
+		 * right-hand side and of degree minus one in the matrix, so
+		 * solve the problem normalised to max|A'Wb| = 1 and
+		 * 1/2 <= max|A'WA + P| < 1 and scale the solution back: the fit
+		 * of c*data is then c times the fit of data, and the fit with
+		 * c*weights and c*smoothing is the fit with weights and smoothing
+		 * (as for the unconstrained fit). Otherwise tables with small
+		 * values are truncated to zero, small weights (large variances)
+		 * lose entries of the matrix below DBL_EPSILON, and large weights
+		 * make every coefficient look as if it sat on its bound.
+		 * The matrix is scaled by a power of two, which is exact.
 		 */
-		double rscale = 0;
+		double rscale = 0, mscale = 0;
+		int mexp = 0;
+		long col, q, qend;
+		double *fx = (double *)(fitmat->x);
 		for (i = 0; i < Rdens->nrow * Rdens->ncol; i++)
 			if (fabs(((double *)(Rdens->x))[i]) > rscale)
 				rscale = fabs(((double *)(Rdens->x))[i]);
@@ -242,12 +252,31 @@ glamfit_complex(const struct ndsparse* data, const double* weights, const double
 			rscale = 1;
 		for (i = 0; i < Rdens->nrow * Rdens->ncol; i++)
 			((double *)(Rdens->x))[i] /= rscale;
+		for (col = 0; col < (long)fitmat->ncol; col++) {
+			q = ((long *)(fitmat->p))[col];
+			qend = fitmat->packed ? ((long *)(fitmat->p))[col+1] :
+			    q + ((long *)(fitmat->nz))[col];
+			for ( ; q < qend; q++)
+				if (fabs(fx[q]) > mscale)
+					mscale = fabs(fx[q]);
+		}
+		if (mscale > 0 && !isinf(mscale))
+			frexp(mscale, &mexp);
+		for (col = 0; col < (long)fitmat->ncol && mexp != 0; col++) {
+			q = ((long *)(fitmat->p))[col];
+			qend = fitmat->packed ? ((long *)(fitmat->p))[col+1] :
+			    q + ((long *)(fitmat->nz))[col];
+			for ( ; q < qend; q++)
+				fx[q] = ldexp(fx[q], -mexp);
+		}
 		coefficients = nnls_normal_block3(fitmat, Rdens,
 		    verbose, c);
 		if (coefficients != NULL)
 			for (i = 0; i < coefficients->nrow *
 			    coefficients->ncol; i++)
-				((double *)(coefficients->x))[i] *= rscale;
+				((double *)(coefficients->x))[i] = ldexp(
+				    ((double *)(coefficients->x))[i] * rscale,
+				    -mexp);
 	} else {
 		/* XXX: clamped to one iteration */
 		coefficients = cholesky_solve(fitmat, Rdens, c,
